@@ -385,6 +385,9 @@ pub fn def() -> PropertyDef {
                 |_: &RunCtx, _: Option<&()>| prop::collection::vec(any::<u8>(), 0..600).prop_map(|bytes| RawSpec { bytes }),
                 raw_oracle::<R>,
             ),
+            // long all-honest batches with mixed aggregation sizes: a panic on a batch shape beyond the chunk size is seen here
+            crate::props::c01::long_sub::<F>((120, 2000)),
+            crate::props::c01::long_sub::<R>((16, 200)),
             crate::fuzzdec::corpus_sub("decode"),
             crate::fuzzdec::corpus_sub("verify"),
         ],
